@@ -26,15 +26,17 @@ NUM_CALLS = {"int_value", "num_value", "float_value", "uint_value", "safe_int", 
 TYPED_CALLS = {"str_value", "literal_name", "keyword_name", "decode_text", "get_data", "get_rawdata", "len", "isinstance", "bool", "str", "repr", "bytes", "id", "type", "safe_rgb", "safe_cmyk", "safe_matrix", "safe_rect", "safe_rect_list", "enc", "make_compat_str"}
 
 DICT_ATTRS = {"attrs", "catalog", "param", "cidsysteminfo", "_obj", "trailer", "cf"}
-RAW_ATTRS = {"resources", "annots", "beads", "lastmod", "contents", "srcsize", "imagemask", "bits", "nums", "kids", "limits"}
+RAW_ATTRS = {"resources", "annots", "beads", "lastmod", "contents", "srcsize", "imagemask", "bits"}
 # LTImage.colorspace: LTImage.__init__ wraps a non-list value into a list, so it is always a list (of unchecked values)
-LIST_ATTRS = {"colorspace"}
+# NumberTree.nums / kids / limits: assigned from list_value(...) (or None, tested before use)
+LIST_ATTRS = {"colorspace", "nums", "kids", "limits"}
 # (class name anywhere in the MRO, attribute) -> kind of self.<attribute>
 CLASS_ATTR_KIND = {
     ("CCITTG4Parser", "width"): "RAW",  # /Columns of the filter parameters, passed on unchecked
     ("PDFXRefStream", "fl1"): "RAW",
     ("PDFXRefStream", "fl2"): "RAW",
     ("PDFXRefStream", "fl3"): "RAW",
+    ("NumberTree", "values"): "PAIRS",  # (number, value) pairs flattened from /Nums arrays: the values are unchecked
 }
 # (class name, attribute) -> kinds of the elements when iterating self.<attribute>
 CLASS_ATTR_ELEM = {
